@@ -14,7 +14,8 @@ RULE = ("(a) units: LogLikelihoods.logsumexp on vectors of length 0-12 with -inf
         "msprime tree sequences (2-6 samples, recombination, renumbered nodes) and single trees, random prior grids "
         "with zeros, cached and uncached g_i, outside standardisation on and off; (c) oracle: the public "
         "inside_outside and maximization functions run in both spaces on the same input. A case is non-trivial "
-        "when the input has mutations and >= 2 internal nodes; distinct by content hash")
+        "when the input has mutations and >= 2 internal nodes; distinct by content hash."
+        "About half of the inputs carry 1-3 extra mutations that sit on NO edge (above the root of the local tree; valid tskit input); the references count only mutations on edges, computed from the tables.")
 ASSUME = ["scipy.stats.poisson.pmf/logpmf values enter the model as a lookup table (not modelled)",
           "exp/log/pow of the binary64 model instance are float implementations in coq/model/DiscreteFloat.v "
           "(about 1e-15 relative; compared with libm on every run), so log-space and multi-tree runs are "
